@@ -74,6 +74,13 @@ impl<'a, T: Read + Seek> QueueReader<'a, T> {
 
     /// Reads the next packet from the compressed vector and decodes it into the queues.
     pub fn advance(&mut self) -> Result<()> {
+        // If all records have a bit size of zero there is no packet data to read at all.
+        // All values are defined by the prototype, so we just generate the next point.
+        let proto = &self.pc.prototype;
+        if !proto.is_empty() && proto.iter().all(|r| r.data_type.bit_size() == 0) {
+            return self.parse_byte_streams(self.available() + 1);
+        }
+
         let packet_header = PacketHeader::read(self.reader)?;
         match packet_header {
             PacketHeader::Index(header) => {
